@@ -1236,3 +1236,94 @@ func runPOSNODE(c *Ctx) {
 		c.AnchorMissing("comparison of a path position with its node's list length in the Cursor methods")
 	}
 }
+
+// ---- POPGUARD --------------------------------------------------------------------------
+//
+// A step that leaves a node (pops its path entry) gives up whatever keys the node still holds beyond the position.
+// It may be taken only when there are none: for a step forward the position has no key after it, for a step back
+// none before it. An extra condition on the in-node step ("only leaves step inside a node") sends the cursor up
+// from a node that still has keys, and they are never visited.
+
+func init() {
+	Register(&Rule{
+		ID:    "POPGUARD",
+		Props: []string{"C10"},
+		Min:   2,
+		Doc: "in Cursor.Forward and Cursor.Backward, every store that drops the last path entry (path = path[:len-1]) is reached only where a test has just established that the entry's node has no key left in the " +
+			"direction of travel: the negative outcome of a comparison of a path position with the node's key count (forward) or with 0 (backward) holds on every path to the pop, each loop pass re-establishing it for the entry it exposes.",
+		Run: runPOPGUARD,
+	})
+}
+
+func runPOPGUARD(c *Ctx) {
+	P := c.P
+	n := 0
+	for _, entry := range c.Entries("(*Cursor).Forward", "(*Cursor).Backward") {
+		for _, fn := range regionOf(c, entry) {
+			for _, b := range fn.Blocks {
+				if ir.IsDead(b) {
+					continue
+				}
+				for _, ins := range b.Instrs {
+					st, ok := ins.(*ssa.Store)
+					if !ok || !isCursorPath(st.Addr) {
+						continue
+					}
+					sl, ok := st.Val.(*ssa.Slice)
+					if !ok || sl.High == nil {
+						continue
+					}
+					// path[:len(path)-1]: a pop (not the undo that cuts back to a saved depth)
+					hb, ok := ir.ResolveCell(sl.High).(*ssa.BinOp)
+					if !ok || hb.Op != token.SUB {
+						continue
+					}
+					if k, isK := ir.ConstInt(hb.Y); !isK || k != 1 {
+						continue
+					}
+					n++
+					exhausted := func(f ir.Fact) bool {
+						bin, ok := f.Cond.(*ssa.BinOp)
+						if !ok {
+							return false
+						}
+						for _, side := range [][2]ssa.Value{{bin.X, bin.Y}, {bin.Y, bin.X}} {
+							if _, _, ok := liPlusK(side[0]); !ok {
+								continue
+							}
+							// against the node's key count …
+							if _, _, ok := lenOfNodeSlice(side[1]); ok {
+								op := bin.Op
+								if side[0] == bin.Y {
+									op = map[token.Token]token.Token{token.LSS: token.GTR, token.GTR: token.LSS, token.LEQ: token.GEQ, token.GEQ: token.LEQ}[op]
+								}
+								// position(+k) < len false, or position(+k) >= len true
+								return (op == token.LSS || op == token.LEQ) && !f.Truth || (op == token.GEQ || op == token.GTR) && f.Truth
+							}
+							// … or against 0 (stepping back)
+							if k, isK := ir.ConstInt(side[1]); isK && (k == 0 || k == 1) {
+								op := bin.Op
+								if side[0] == bin.Y {
+									op = map[token.Token]token.Token{token.LSS: token.GTR, token.GTR: token.LSS, token.LEQ: token.GEQ, token.GEQ: token.LEQ}[op]
+								}
+								return (op == token.GTR || op == token.GEQ) && !f.Truth || (op == token.LEQ || op == token.LSS || op == token.EQL) && f.Truth
+							}
+						}
+						return false
+					}
+					pos := P.InstrPos(st)
+					what := "pop of the last path entry in " + ir.FuncName(fn)
+					if ir.FlowFact(st, exhausted, func(ssa.Instruction) bool { return false }) {
+						c.OK(pos, what, "every path to it has just found the entry's node without a key left in the direction of travel", false)
+					} else {
+						c.Violation(fn, pos, "path entry dropped although its node may still have keys to visit",
+							"on some path to this pop no test has established that the node has no key left beyond (forward) or before (backward) the position: the step inside the node depends on a further condition, and where that fails the cursor climbs out of a node whose remaining keys are then never visited")
+					}
+				}
+			}
+		}
+	}
+	if n == 0 {
+		c.AnchorMissing("a pop of the last path entry in Cursor.Forward / Cursor.Backward")
+	}
+}
